@@ -1,5 +1,10 @@
 // ---- src/repr/unit_prop.rs: SATSolver::decide / pop composed with the contract of the real propagator (C09) ----
 //%% include trusted/pm_clone.rs
+//%% include trusted/sat_iters.rs
+
+/// a weighted clause contains the literal / has a literal that m makes true
+pub open spec fn wcontains(c: Seq<(Literal, u128)>, l: Literal) -> bool { exists|j: int| 0 <= j < c.len() && (#[trigger] c[j]).0 == l }
+pub open spec fn wclause_true(c: Seq<(Literal, u128)>, m: PartialModel) -> bool { exists|j: int| 0 <= j < c.len() && m.val((#[trigger] c[j]).0.lbl) == Some(c[j].0.pol) }
 
 //%% extract src/repr/unit_prop.rs :: - :: enum DecisionResult
 //%% end
@@ -31,11 +36,82 @@ impl SATSolver {
         &&& forall|k: int| 0 <= k < self.state_stack@.len() ==> (#[trigger] self.frame(k)).wf() && self.up.watch_ok(self.frame(k))
         &&& forall|j: int, k: int| 0 <= j <= k < self.state_stack@.len() ==> extends(#[trigger] self.frame(k), #[trigger] self.frame(j))
         &&& forall|k: int| 1 <= k < self.state_stack@.len() ==> units_assigned(self.cs(), #[trigger] self.frame(k))
+        // the satisfied-clause bookkeeping: the index built by `new` (A-new-shape), one exact set per frame, models over the formula's variables
+        &&& self.idx_ok()
+        &&& forall|k: int| 0 <= k < self.state_stack@.len() ==> #[trigger] self.sat_inv(k)
+        &&& forall|k: int, x: VarLabel| 0 <= k < self.state_stack@.len() && (#[trigger] self.frame(k).val(x)) is Some ==> x.0 < self.up.cnf.num_vars
     }
 
-    // A-sat-deps: unverified (iterator chains, labelled continue over BitSet iterators); takes `&self`
-    #[verifier::external_body]
-    fn update_hash_and_sat_set(&self, new_model: &PartialModel) -> (r: (u128, BitSet)) { unimplemented!() }
+    /// the literal -> clauses index and the weighted clause list as SATSolver::new builds them (A-new-shape: new is not under contract)
+    pub open spec fn idx_ok(&self) -> bool {
+        &&& self.contains_pos_lit@.len() == self.up.cnf.num_vars && self.contains_neg_lit@.len() == self.up.cnf.num_vars
+        &&& self.clauses@.len() <= usize::MAX   // (true of every Vec; stated because a proof context cannot call `len()`)
+        &&& forall|i: int, j: int| 0 <= i < self.clauses@.len() && 0 <= j < self.clauses@[i]@.len() ==> (#[trigger] self.clauses@[i]@[j]).0.lbl.0 < self.up.cnf.num_vars
+        &&& forall|v: int, i: usize| 0 <= v < self.contains_pos_lit@.len() ==>
+                ((#[trigger] self.contains_pos_lit@[v]@.contains(i)) == (i < self.clauses@.len() && wcontains(self.clauses@[i as int]@, Literal { lbl: VarLabel(v as u64), pol: true })))
+        &&& forall|v: int, i: usize| 0 <= v < self.contains_neg_lit@.len() ==>
+                ((#[trigger] self.contains_neg_lit@[v]@.contains(i)) == (i < self.clauses@.len() && wcontains(self.clauses@[i as int]@, Literal { lbl: VarLabel(v as u64), pol: false })))
+    }
+    /// every clause of the solver's (normalised, weighted) clause list has a literal that m makes true
+    pub open spec fn all_wtrue(&self, m: PartialModel) -> bool { forall|i: int| 0 <= i < self.clauses@.len() ==> wclause_true((#[trigger] self.clauses@[i])@, m) }
+    /// the satisfied-clause set of frame k holds exactly the (weighted) clauses with a literal that the frame's model makes true
+    pub open spec fn sat_inv(&self, k: int) -> bool {
+        forall|i: usize| #[trigger] self.state_stack@[k].sat_clauses@.contains(i) == (i < self.clauses@.len() && wclause_true(self.clauses@[i as int]@, self.frame(k)))
+    }
+
+// R-for-while / A-sat-iters: the six `for` loops (two of them over `new_model.difference(..)`, two over a BitSet, two over a weighted
+// clause with a tuple pattern) become indexed `while` loops over the stub vectors / the clause vector; bodies verbatim.
+//%% extract src/repr/unit_prop.rs :: impl SATSolver :: fn update_hash_and_sat_set
+//%% @ret r
+//%% @attr #[verifier::loop_isolation(false)]
+//%% @attr #[verifier::exec_allows_no_decreases_clause]
+//%% @rewrite 2 /for lit in new_model\.difference\(&self\.top_state\(\)\.model\) \{/ => let diff__v = verif_difference_vec(new_model, &self.top_state().model); let mut d__i: usize = 0; while d__i < diff__v.len() { let lit = diff__v[d__i]; d__i += 1;
+//%% @rewrite 1 /for clause_idx in matching_polarity\[lit\.label\(\)\.value_usize\(\)\]\.iter\(\) \{/ => let bs__v = verif_bitset_vec(&matching_polarity[lit.label().value_usize()]); let mut b__i: usize = 0; while b__i < bs__v.len() { let clause_idx = bs__v[b__i]; b__i += 1;
+//%% @rewrite 1 /for clause_idx in opposite_polarity\[lit\.label\(\)\.value_usize\(\)\]\.iter\(\) \{/ => let bs__v = verif_bitset_vec(&opposite_polarity[lit.label().value_usize()]); let mut b__i: usize = 0; while b__i < bs__v.len() { let clause_idx = bs__v[b__i]; b__i += 1;
+//%% @rewrite 2 /for \(clause_lit, weight\) in self\.clauses\[clause_idx\]\.iter\(\) \{/ => let cl__v = &self.clauses[clause_idx]; let mut c__i: usize = 0; while c__i < cl__v.len() { let (clause_lit, weight) = (&cl__v[c__i].0, &cl__v[c__i].1); c__i += 1;
+//%% @rewrite 2 /hash = hash\.wrapping_mul\(\*weight\);/ => hash = verif_wrapping_mul(hash, *weight);
+//%% @spec
+        requires
+            self.state_stack@.len() >= 1, self.idx_ok(), self.sat_inv(self.state_stack@.len() - 1),
+            new_model.wf(), self.top().wf(), extends(*new_model, self.top()),
+            forall|x: VarLabel| (#[trigger] new_model.val(x)) is Some ==> x.0 < self.up.cnf.num_vars,
+        ensures
+            forall|i: usize| #[trigger] r.1@.contains(i) == (i < self.clauses@.len() && wclause_true(self.clauses@[i as int]@, *new_model)),
+//%% @entry
+        let ghost old_m = self.top();
+        let ghost nm = *new_model;
+//%% @loop 1 /^while d__i < diff__v\.len\(\)$/
+            invariant
+                d__i <= diff__v@.len(),
+                forall|i: usize| #[trigger] new_set@.contains(i) ==> i < self.clauses@.len() && wclause_true(self.clauses@[i as int]@, nm),
+                forall|i: usize| i < self.clauses@.len() && wclause_true(self.clauses@[i as int]@, old_m) ==> #[trigger] new_set@.contains(i),
+                forall|i: usize, k: int| 0 <= k < d__i && i < self.clauses@.len() && wcontains(self.clauses@[i as int]@, #[trigger] diff__v@[k]) ==> #[trigger] new_set@.contains(i),
+//%% @loopend 1
+            proof {
+                let lbl = lit.lbl.0 as int;
+                assert(lit == Literal { lbl: VarLabel(lit.lbl.0), pol: lit.pol });
+                assert forall|i: usize| i < self.clauses@.len() && wcontains(self.clauses@[i as int]@, lit) implies new_set@.contains(i) by {
+                    assert(matching_polarity@[lbl]@.contains(i));
+                    let k = choose|k: int| 0 <= k < bs__v@.len() && #[trigger] bs__v@[k] == i;
+                    assert(new_set@.contains(bs__v@[k]));
+                }
+            }
+//%% @loop 2 /^while b__i < bs__v\.len\(\)$/
+                invariant
+                    b__i <= bs__v@.len(), 0 < d__i <= diff__v@.len(), lit == diff__v@[d__i - 1],
+                    forall|i: usize| #[trigger] new_set@.contains(i) ==> i < self.clauses@.len() && wclause_true(self.clauses@[i as int]@, nm),
+                    forall|i: usize| i < self.clauses@.len() && wclause_true(self.clauses@[i as int]@, old_m) ==> #[trigger] new_set@.contains(i),
+                    forall|i: usize, k: int| 0 <= k < d__i - 1 && i < self.clauses@.len() && wcontains(self.clauses@[i as int]@, #[trigger] diff__v@[k]) ==> #[trigger] new_set@.contains(i),
+                    forall|k: int| 0 <= k < b__i ==> new_set@.contains(#[trigger] bs__v@[k]),
+//%% @loop 3 /^while c__i < cl__v\.len\(\)$/
+                    invariant c__i <= cl__v@.len(),
+//%% @loop 4 /^while d__i < diff__v\.len\(\)$/
+            invariant d__i <= diff__v@.len(),
+//%% @loop 5 /^while b__i < bs__v\.len\(\)$/
+                invariant b__i <= bs__v@.len(),
+//%% @loop 6 /^while c__i < cl__v\.len\(\)$/
+                    invariant c__i <= cl__v@.len(),
+//%% end
 
 //%% extract src/repr/unit_prop.rs :: impl SATSolver :: fn top_state
 //%% @ret r
@@ -59,6 +135,8 @@ impl SATSolver {
                 assert forall|k: int| 0 <= k < self.state_stack@.len() implies (#[trigger] self.frame(k)).wf() && self.up.watch_ok(self.frame(k)) by { assert(s0.frame(k).wf()); }
                 assert forall|j: int, k: int| 0 <= j <= k < self.state_stack@.len() implies extends(#[trigger] self.frame(k), #[trigger] self.frame(j)) by { assert(extends(s0.frame(k), s0.frame(j))); }
                 assert forall|k: int| 1 <= k < self.state_stack@.len() implies units_assigned(self.cs(), #[trigger] self.frame(k)) by { assert(units_assigned(s0.cs(), s0.frame(k))); }
+                assert forall|k: int| 0 <= k < self.state_stack@.len() implies #[trigger] self.sat_inv(k) by { assert(s0.sat_inv(k)); assert(self.state_stack@[k] == s0.state_stack@[k]); }
+                assert forall|k: int, x: VarLabel| 0 <= k < self.state_stack@.len() && (#[trigger] self.frame(k).val(x)) is Some implies x.0 < self.up.cnf.num_vars by { assert(s0.frame(k).val(x) is Some); }
             }
         }
 //%% end
@@ -79,11 +157,13 @@ impl SATSolver {
             // ... and (from the initially propagated frame on) propagation has run to FIXPOINT: no clause is falsified or has
             // exactly one unassigned literal
             !(r is UNSAT) ==> at_fixpoint(final(self).cs(), final(self).top()),
+            // the satisfied flag: SAT is answered exactly when every clause of the solver's clause list has a true literal
+            !(r is UNSAT) ==> ((r is SAT) == final(self).all_wtrue(final(self).top())),
 // R-ghost-arm: the match arm `UnitPropResult::UNSAT => DecisionResult::UNSAT,` becomes a block holding a proof block and the same value
 //%% @rewrite 1 /UnitPropResult::UNSAT => DecisionResult::UNSAT,/ => UnitPropResult::UNSAT => { proof { lemma_decide_unsat_keeps(s0, *self); } DecisionResult::UNSAT }
 //%% @entry
         let ghost s0 = *self;
-        proof { assert(self.frame(self.state_stack@.len() - 1).wf()); }
+        proof { assert(self.frame(self.state_stack@.len() - 1).wf()); assert(self.sat_inv(self.state_stack@.len() - 1)); }
 //%% @after /UnitPropResult::PartialSAT\(new_model\) => \{/
                 proof {
                     let u1 = s0.up; let u2 = self.up; let m1 = s0.top();
@@ -97,13 +177,20 @@ impl SATSolver {
                         lemma_extends_trans(new_model, m1, s0.frame(j));
                     }
                 }
-//%% @before /^\s*if num_set [!=]= self\.clauses\.len\(\) \{$/
-                proof { lemma_decide_pushed(s0, *self); }
+//%% @before /^\s*if num_set .*self\.clauses\.len\(\) \{$/
+                proof {
+                    lemma_decide_pushed(s0, *self);
+                    let n = s0.state_stack@.len() as int;
+                    assert(self.sat_inv(n));
+                    axiom_bitset_full(self.state_stack@[n].sat_clauses, self.clauses@.len() as nat);
+                    lemma_flag_full(*self, n);
+                }
 //%% end
 }
 /// a decide that reported UNSAT: the lists may have been rearranged, the stack is as it was -- the invariant still holds
 pub proof fn lemma_decide_unsat_keeps(s0: SATSolver, s1: SATSolver)
     requires s0.solver_ok(), s1.state_stack == s0.state_stack, s1.up.winv(), frame_ok(s0.up, s1.up, s0.top()),
+        s1.clauses == s0.clauses, s1.contains_pos_lit == s0.contains_pos_lit, s1.contains_neg_lit == s0.contains_neg_lit,
     ensures s1.solver_ok(),
 {
     let n = s0.state_stack@.len() as int;
@@ -113,6 +200,8 @@ pub proof fn lemma_decide_unsat_keeps(s0: SATSolver, s1: SATSolver)
     }
     assert forall|j: int, k: int| 0 <= j <= k < n implies extends(#[trigger] s1.frame(k), #[trigger] s1.frame(j)) by { assert(extends(s0.frame(k), s0.frame(j))); }
     assert forall|k: int| 1 <= k < n implies units_assigned(s1.cs(), #[trigger] s1.frame(k)) by { assert(units_assigned(s0.cs(), s0.frame(k))); }
+    assert forall|k: int| 0 <= k < n implies #[trigger] s1.sat_inv(k) by { assert(s0.sat_inv(k)); }
+    assert forall|k: int, x: VarLabel| 0 <= k < n && (#[trigger] s1.frame(k).val(x)) is Some implies x.0 < s1.up.cnf.num_vars by { assert(s0.frame(k).val(x) is Some); }
 }
 /// a decide that pushed a frame
 pub proof fn lemma_decide_pushed(s0: SATSolver, s1: SATSolver)
@@ -121,6 +210,8 @@ pub proof fn lemma_decide_pushed(s0: SATSolver, s1: SATSolver)
         s1.up.winv(), s1.up.cnf == s0.up.cnf, frame_ok(s0.up, s1.up, s0.top()),
         s1.top().wf(), s1.up.watch_ok(s1.top()), extends(s1.top(), s0.top()),
         forall|k: int| 0 <= k < s0.state_stack@.len() ==> s1.up.watch_ok(#[trigger] s0.frame(k)),
+        s1.clauses == s0.clauses, s1.contains_pos_lit == s0.contains_pos_lit, s1.contains_neg_lit == s0.contains_neg_lit,
+        s1.sat_inv(s0.state_stack@.len() as int), ranged(s1.top(), s0.top(), s0.up.cnf.num_vars as int),
     ensures s1.solver_ok(),
 {
     let n = s0.state_stack@.len() as int;
@@ -136,6 +227,12 @@ pub proof fn lemma_decide_pushed(s0: SATSolver, s1: SATSolver)
     assert forall|k: int| 1 <= k < n + 1 implies units_assigned(s1.cs(), #[trigger] s1.frame(k)) by {
         if k < n { assert(units_assigned(s0.cs(), s0.frame(k))); }
         else { assert(units_assigned(s0.cs(), s0.frame(n - 1))); lemma_extends_units(s0.cs(), s0.top(), s1.top()); }
+    }
+    assert forall|k: int| 0 <= k < n + 1 implies #[trigger] s1.sat_inv(k) by {
+        if k < n { assert(s0.sat_inv(k)); assert(s1.state_stack@[k] == s0.state_stack@[k]); }
+    }
+    assert forall|k: int, x: VarLabel| 0 <= k < n + 1 && (#[trigger] s1.frame(k).val(x)) is Some implies x.0 < s1.up.cnf.num_vars by {
+        if k < n { assert(s0.frame(k).val(x) is Some); } else { if s0.top().val(x) is Some { assert(s0.frame(n - 1).val(x) is Some); } }
     }
 }
 pub proof fn lemma_extends_trans(m3: PartialModel, m2: PartialModel, m1: PartialModel)
@@ -161,6 +258,7 @@ pub proof fn lemma_initial_solver_ok(s: SATSolver, m: PartialModel)
     requires
         s.state_stack@.len() == 2, forall|x: VarLabel| s.frame(0).val(x) is None, s.frame(0).wf(), s.frame(1) == m,
         s.up.winv(), s.up.watch_ok(m), m.wf(), no_empty(s.cs()), units_assigned(s.cs(), m),
+        s.idx_ok(), s.sat_inv(0), s.sat_inv(1), forall|x: VarLabel| (#[trigger] m.val(x)) is Some ==> x.0 < s.up.cnf.num_vars,
     ensures s.solver_ok(), at_fixpoint(s.cs(), s.top()),
 {
     lemma_watch_empty(s.up, s.frame(0));
@@ -184,5 +282,107 @@ pub proof fn lemma_total_model_satisfies(cs: Seq<Vec<Literal>>, m: PartialModel)
 {
     assert forall|i: int| 0 <= i < cs.len() implies clause_true_p((#[trigger] cs[i])@, m) by {
         assert(not_stuck(cs[i]@, m));
+    }
+}
+
+impl SATSolver {
+//%% extract src/repr/unit_prop.rs :: impl SATSolver :: fn is_sat
+//%% @ret r
+//%% @spec
+        requires self.solver_ok(),
+        ensures r == self.all_wtrue(self.top()),
+//%% @entry
+        proof {
+            let n = self.state_stack@.len() - 1;
+            assert(self.sat_inv(n));
+            axiom_bitset_full(self.state_stack@[n].sat_clauses, self.clauses@.len() as nat);
+            lemma_flag_full(*self, n);
+        }
+//%% end
+}
+/// with the exact satisfied-clause set of frame k: the set is full iff every clause has a true literal
+pub proof fn lemma_flag_full(s: SATSolver, k: int)
+    requires 0 <= k < s.state_stack@.len(), s.sat_inv(k), s.clauses@.len() <= usize::MAX,
+    ensures
+        forall|x: usize| s.state_stack@[k].sat_clauses@.contains(x) ==> x < s.clauses@.len(),
+        (forall|x: usize| x < s.clauses@.len() ==> s.state_stack@[k].sat_clauses@.contains(x)) == s.all_wtrue(s.frame(k)),
+{
+    if s.all_wtrue(s.frame(k)) {
+        assert forall|x: usize| x < s.clauses@.len() implies s.state_stack@[k].sat_clauses@.contains(x) by { assert(wclause_true(s.clauses@[x as int]@, s.frame(k))); }
+    }
+    if forall|x: usize| x < s.clauses@.len() ==> s.state_stack@[k].sat_clauses@.contains(x) {
+        assert forall|i: int| 0 <= i < s.clauses@.len() implies wclause_true((#[trigger] s.clauses@[i])@, s.frame(k)) by { let x = i as usize; assert(x as int == i); assert(s.state_stack@[k].sat_clauses@.contains(x)); }
+    }
+}
+
+// ---- what the flag means for the FORMULA: relative to the shape SATSolver::new gives the weighted clause list (A-new-shape) ----
+/// the clause contains a literal and its negation
+pub open spec fn taut(c: Seq<Literal>) -> bool { exists|j: int, k: int| 0 <= j < c.len() && 0 <= k < c.len() && (#[trigger] c[j]).lbl == (#[trigger] c[k]).lbl && c[j].pol != c[k].pol }
+/// same literals
+#[verifier::opaque]
+pub open spec fn wsame(wc: Seq<(Literal, u128)>, c: Seq<Literal>) -> bool {
+    (forall|j: int| 0 <= j < wc.len() ==> c.contains((#[trigger] wc[j]).0)) && (forall|j: int| 0 <= j < c.len() ==> wcontains(wc, #[trigger] c[j]))
+}
+/// A-new-shape (second half): the weighted clause list is the formula's non-tautological clauses, literal set by literal set
+pub open spec fn wnorm(s: SATSolver) -> bool {
+    &&& forall|i: int| 0 <= i < s.clauses@.len() ==> exists|j: int| 0 <= j < s.cs().len() && !taut(s.cs()[j]@) && wsame((#[trigger] s.clauses@[i])@, (#[trigger] s.cs()[j])@)
+    &&& forall|j: int| 0 <= j < s.cs().len() && !taut((#[trigger] s.cs()[j])@) ==> exists|i: int| 0 <= i < s.clauses@.len() && wsame((#[trigger] s.clauses@[i])@, s.cs()[j]@)
+}
+pub proof fn lemma_wsame_true(wc: Seq<(Literal, u128)>, c: Seq<Literal>, m: PartialModel)
+    requires wsame(wc, c),
+    ensures wclause_true(wc, m) == clause_true_p(c, m),
+{
+    reveal(wsame);
+    if wclause_true(wc, m) {
+        let j = choose|j: int| 0 <= j < wc.len() && m.val((#[trigger] wc[j]).0.lbl) == Some(wc[j].0.pol);
+        assert(c.contains(wc[j].0));
+        let k = choose|k: int| 0 <= k < c.len() && c[k] == wc[j].0;
+        assert(lit_true_p(c[k], m));
+    }
+    if clause_true_p(c, m) {
+        let k = choose|k: int| 0 <= k < c.len() && lit_true_p(#[trigger] c[k], m);
+        assert(wcontains(wc, c[k]));
+        let j = choose|j: int| 0 <= j < wc.len() && (#[trigger] wc[j]).0 == c[k];
+        assert(m.val(wc[j].0.lbl) == Some(wc[j].0.pol));
+    }
+}
+/// C09, fifth clause: the flag is raised exactly when every NON-TAUTOLOGICAL clause of the formula contains a true literal
+pub open spec fn nontaut_true(cs: Seq<Vec<Literal>>, m: PartialModel) -> bool { forall|j: int| 0 <= j < cs.len() && !taut((#[trigger] cs[j])@) ==> clause_true_p(cs[j]@, m) }
+pub proof fn lemma_flag_meaning_1(s: SATSolver, m: PartialModel)
+    requires wnorm(s), nontaut_true(s.cs(), m),
+    ensures s.all_wtrue(m),
+{
+    assert forall|i: int| 0 <= i < s.clauses@.len() implies wclause_true((#[trigger] s.clauses@[i])@, m) by {
+        let j = choose|j: int| 0 <= j < s.cs().len() && !taut(s.cs()[j]@) && wsame(s.clauses@[i]@, (#[trigger] s.cs()[j])@);
+        lemma_wsame_true(s.clauses@[i]@, s.cs()[j]@, m);
+    }
+}
+pub proof fn lemma_flag_meaning_2(s: SATSolver, m: PartialModel)
+    requires wnorm(s), s.all_wtrue(m),
+    ensures nontaut_true(s.cs(), m),
+{
+    assert forall|j: int| 0 <= j < s.cs().len() && !taut((#[trigger] s.cs()[j])@) implies clause_true_p(s.cs()[j]@, m) by {
+        let i = choose|i: int| 0 <= i < s.clauses@.len() && wsame((#[trigger] s.clauses@[i])@, s.cs()[j]@);
+        assert(wclause_true(s.clauses@[i]@, m));
+        lemma_wsame_true(s.clauses@[i]@, s.cs()[j]@, m);
+    }
+}
+/// A-sat, the SAT clause: when the flag is raised every total assignment that agrees with the model satisfies the formula
+/// (a tautological clause holds under every total assignment)
+pub proof fn lemma_sat_extensions(s: SATSolver, m: PartialModel, env: Asg)
+    requires wnorm(s), s.all_wtrue(m), agrees(env, m),
+    ensures cnf_holds(s.cs(), env),
+{
+    lemma_flag_meaning_2(s, m);
+    assert forall|j: int| 0 <= j < s.cs().len() implies clause_holds((#[trigger] s.cs()[j])@, env) by {
+        let c = s.cs()[j]@;
+        if taut(c) {
+            let (a, b) = choose|a: int, b: int| 0 <= a < c.len() && 0 <= b < c.len() && (#[trigger] c[a]).lbl == (#[trigger] c[b]).lbl && c[a].pol != c[b].pol;
+            if env(c[a].lbl.0) == c[a].pol { assert(lit_holds(c[a], env)); } else { assert(lit_holds(c[b], env)); }
+        } else {
+            assert(clause_true_p(c, m));
+            let k = choose|k: int| 0 <= k < c.len() && lit_true_p(#[trigger] c[k], m);
+            assert(lit_holds(c[k], env));
+        }
     }
 }
